@@ -186,8 +186,9 @@ def feasible(facts):
 
 
 class RegSetModel:
-    def __init__(self, fn):
+    def __init__(self, fn, prog=None):
         self.fn = fn
+        self.prog = prog
         self.switch = None
         self.paths = []
         self.problems = []
@@ -249,14 +250,18 @@ class RegSetModel:
                     ap = ArmPath()
                     ap.classes = classes
                     ap.edges = [(self.switch, si)] + edges
-                    self._walk(ap, s, edges)
-                    if feasible(ap.facts):
-                        self.paths.append(ap)
+                    for q in self._walk(ap, s, edges):
+                        if feasible(q.facts):
+                            self.paths.append(q)
             except C.PathTooMany:
                 self.problems.append("too many paths in arm %s" % (classes,))
 
     def _walk(self, ap, first_block, edges):
+        """evaluate one block path of the arm; a call to a small static helper whose value is assigned (val = helper(...))
+        is inlined path by path (renamed copy of the helper, sa/facts.instantiate), so that a decision extracted into a
+        helper is still seen as a decision of this arm.  Returns the list of resulting ArmPaths."""
         fn = self.fn
+        steps = []
         seq = []
         if not edges:
             seq.append((first_block, None))
@@ -265,20 +270,106 @@ class RegSetModel:
         last = None
         for b, si in seq:
             for e in b.elems:
-                process_elem(ap, e)
+                steps.append(("elem", e))
             if si is not None:
                 lab = fn.edge_label(b, si)
                 if lab[0] in ("true", "false") and lab[1] is not None:
-                    ap.facts.append((lab[1], lab[0] == "true"))
-                    ap.events.append(("branch", (lab[1], lab[0] == "true")))
+                    steps.append(("branch", (lab[1], lab[0] == "true")))
                 last = b.succs[si]
         if last is None:
             last = first_block
-        if last.id == fn.exit.id:
-            ap.ends = "return"
-        else:
-            ap.ends = "loop"
-            # elements of the loop-condition block are evaluated but belong to the next round
+        ends = "return" if last.id == fn.exit.id else "loop"
+        out = []
+        self._run(ap, steps, 0, out, 0)
+        for q in out:
+            q.ends = ends
+        return out
+
+    def _helper_of(self, n):
+        """(call node, target path or decl name) if element n assigns the value of a small static helper"""
+        prog = getattr(self, "prog", None)
+        if prog is None:
+            return None
+        call = tgt = None
+        if n.k in ("BinaryOperator",) and n.get("op") == "=":
+            r = n.child(1).strip_all_casts()
+            if r.k == "CallExpr":
+                call, tgt = r, n.child(0).strip().get("path")
+        elif n.k == "DeclStmt":
+            for d in n.get("decls", []):
+                if "init" in d:
+                    r = n.fn.nodes[d["init"]].strip_all_casts()
+                    if r.k == "CallExpr":
+                        call, tgt = r, d["name"]
+        if call is None or not call.get("callee") or not tgt:
+            return None
+        g = prog.fn(call["callee"])
+        if g is None or not g.static or g.name == self.fn.name or len(g.blocks) > 14 or C.loops(g):
+            return None
+        return call, tgt, g
+
+    def _run(self, ap, steps, i, out, depth):
+        import copy
+        from sa import facts as F_
+        while i < len(steps):
+            kind, x = steps[i]
+            i += 1
+            if kind == "branch":
+                ap.facts.append(x)
+                ap.events.append(("branch", x))
+                continue
+            h = self._helper_of(x) if depth < 2 else None
+            if h is None:
+                process_elem(ap, x)
+                continue
+            call, tgt, g = h
+            self._inl = getattr(self, "_inl", 0) + 1
+            clone, byvalue = F_.instantiate(g, call, "%s$%d::" % (g.name, self._inl))
+            ap.calls.append(call)
+            for edges, _ in C.enumerate_paths(clone, max_visits=1):
+                q = copy.copy(ap)
+                q.classes, q.edges = list(ap.classes), list(ap.edges)
+                q.env, q.sym, q.truth = dict(ap.env), dict(ap.sym), dict(ap.truth)
+                q.reg_stores, q.calls, q.facts, q.events, q.notes = list(ap.reg_stores), list(ap.calls), list(ap.facts), list(ap.events), list(ap.notes)
+                for pname, arg in byvalue:
+                    v = eval_bits(q, arg)
+                    if v is not None:
+                        q.env[pname] = v
+                sub = []
+                ret = None
+                seqb = [(clone.entry, None)] if not edges else list(edges)
+                for b, si in seqb:
+                    for e in b.elems:
+                        if e.k == "ReturnStmt":
+                            ret = e
+                        else:
+                            sub.append(("elem", e))
+                    if si is not None:
+                        lab = clone.edge_label(b, si)
+                        if lab[0] in ("true", "false") and lab[1] is not None:
+                            sub.append(("branch", (lab[1], lab[0] == "true")))
+                if edges:
+                    lastb = edges[-1][0].succs[edges[-1][1]]
+                    if lastb is not None:
+                        for e in lastb.elems:
+                            if e.k == "ReturnStmt":
+                                ret = e
+                            else:
+                                sub.append(("elem", e))
+                inner = []
+                self._run(q, sub, 0, inner, depth + 1)
+                for q2 in inner:
+                    v = eval_bits(q2, ret.child(0)) if ret is not None and ret.ch else None
+                    if v is not None:
+                        q2.env[tgt] = v
+                    else:
+                        name = "%s@call%d" % (tgt, self._inl)
+                        q2.env[tgt] = ({name}, (lambda a, name=name: a[name]))
+                    q2.sym.pop(tgt, None)
+                    q2.events.append(("store", (tgt, v, x)))
+                    self._run(q2, steps, i, out, depth)
+            return
+        out.append(ap)
 
 
 def class_names(prog, values):
